@@ -166,7 +166,8 @@ class SimSocket:
         k = self.k
         k.ops += 1
         self._check_open()
-        if self.reset:
+        if self.reset or (self.wr_shut and self.fin_rcvd):
+            # reset, or both FINs exchanged: the connection no longer exists (Linux: ENOTCONN)
             k.log.append((self.name, "shutdown", how, errno.ENOTCONN))
             raise OSError(errno.ENOTCONN, "Transport endpoint is not connected")
         if how in (1, 2) and not self.wr_shut:
@@ -195,6 +196,20 @@ class SimSocket:
             k.rst = True
             if self.rx and not self.linger0:
                 k.flags.add("close-with-unread-data")
+            # whatever was still in our send queue dies with the connection: the tail of peer.rx and, behind it,
+            # a FIN the peer has not read yet.  The peer keeps an explorer-chosen prefix (default: everything,
+            # i.e. all of it had already arrived)
+            fin = 1 if (peer.fin_rcvd and not peer.fin_read) else 0
+            units = len(peer.rx) + fin
+            if units:
+                drop = k.ch.choose(units + 1, "rst-drop")
+                if drop:
+                    k.flags.add("unsent-tail-dropped-by-reset")
+                    if fin:
+                        peer.fin_rcvd = False
+                        drop -= 1
+                    if drop:
+                        del peer.rx[len(peer.rx) - drop:]
             peer.reset = True
             peer.err = errno.ECONNRESET
             k.log.append((self.name, "close", "rst", 0))
